@@ -1,6 +1,7 @@
 """Property -> harness modules.  A module may host conditions of several properties
 (the registry is filtered by property id)."""
 PROPS = {
+    'C14': ['mpgverif.harness.c14_vep'],
     'C16': ['mpgverif.harness.c16_rmats'],
     'C17': ['mpgverif.harness.c17_circ'],
     'C13': ['mpgverif.harness.c13_gvf'],
